@@ -16,10 +16,10 @@ EXTENDS Naturals, Sequences
 PromptMs == 10000      \* "promptly": generous wall-clock bound (typical: < 200 ms)
 
 ExecFails == {"noent", "noentabs", "noexec", "enoexec", "dir", "emptyargs", "hugearg"}   \* request/program caused
-ExecRuns  == {"run", "runslow", "sleep", "term", "fdexec", "envrun"}
+ExecRuns  == {"run", "runslow", "sleep", "term", "fdexec", "envrun", "cgexec"}
 
 Genuine(op, a) ==
-  CASE op.v \in {"run", "runslow", "fdexec", "envrun"} ->      \* (the program exits 99/98 if it sees / misses VQMARK wrongly)
+  CASE op.v \in {"run", "runslow", "fdexec", "envrun", "cgexec"} ->      \* (the program exits 99/98 if it sees / misses VQMARK wrongly)
          /\ a.r = "verdict" /\ a.code = op.code
          /\ a.status = (IF op.code = 0 THEN 1 ELSE 7)
     [] op.v = "term"  -> a.r = "verdict" /\ a.status = 6 /\ a.code = 15
